@@ -233,13 +233,39 @@ func anyDraws(r *scheduling.Requirement, k int) (res []trace.M, panicked bool, p
 	return
 }
 
-// toNodeClaim builds a NodePool whose template carries the chain on the custom key, asks the real
-// validation, and drives NewNodeClaimTemplate(...).ToNodeClaim() (dynamic and static flavour).
-func (d *drv) toNodeClaim(atoms []Atom) trace.M {
+// podValid: what a pod's required node affinity can carry (core operators; Gt/Lt take any integer).
+func podValid(a Atom) bool {
+	switch a.Op {
+	case "In", "NotIn":
+		return len(a.Vals) > 0
+	case "Exists", "DoesNotExist":
+		return len(a.Vals) == 0
+	case "Gt", "Lt":
+		return len(a.Vals) == 1
+	}
+	return false
+}
+
+func podWith(key string, atoms []Atom) *corev1.Pod {
+	p := &corev1.Pod{}
+	exprs := []corev1.NodeSelectorRequirement{}
+	for _, a := range atoms {
+		exprs = append(exprs, corev1.NodeSelectorRequirement{Key: key, Operator: corev1.NodeSelectorOperator(a.Op), Values: append([]string{}, a.Vals...)})
+	}
+	p.Spec.Affinity = &corev1.Affinity{NodeAffinity: &corev1.NodeAffinity{RequiredDuringSchedulingIgnoredDuringExecution: &corev1.NodeSelector{
+		NodeSelectorTerms: []corev1.NodeSelectorTerm{{MatchExpressions: exprs}}}}}
+	return p
+}
+
+// toNodeClaim builds a NodePool whose template carries poolAtoms on the custom key, asks the real validation,
+// adds the requirements of a pod carrying podAtoms the way the scheduler does (only if the scheduler's own gate,
+// Compatible with AllowUndefinedWellKnownLabels, lets the pod onto the in-flight NodeClaim) and drives
+// NewNodeClaimTemplate(...).ToNodeClaim() (dynamic and static flavour).
+func (d *drv) toNodeClaim(split int, poolAtoms, podAtoms []Atom) trace.M {
 	key := d.in.Keys["custom"]
 	np := world.NodePool("pool")
 	np.UID = "pool-uid"
-	for _, a := range atoms {
+	for _, a := range poolAtoms {
 		var mv *int
 		if a.Mv > 0 {
 			m := a.Mv
@@ -248,12 +274,17 @@ func (d *drv) toNodeClaim(atoms []Atom) trace.M {
 		np.Spec.Template.Spec.Requirements = append(np.Spec.Template.Spec.Requirements, v1.NodeSelectorRequirementWithMinValues{
 			Key: key, Operator: corev1.NodeSelectorOperator(a.Op), Values: append([]string{}, a.Vals...), MinValues: mv})
 	}
-	out := trace.M{"ran": false, "valid": false, "panic": false, "panicStatic": false, "msg": "-",
+	out := trace.M{"i": split, "ran": false, "panic": false, "panicStatic": false, "msg": "-",
 		"ser": []trace.M{}, "hasLabel": false, "label": absVal(""), "serStatic": []trace.M{}}
 	if np.RuntimeValidate(d.ctx) != nil {
 		return out
 	}
-	out["ran"], out["valid"] = true, true
+	for _, a := range podAtoms {
+		if !podValid(a) {
+			return out
+		}
+	}
+	gateOK := true
 	run := func(static bool) (ser []trace.M, label string, hasLabel bool, panicked bool, msg string) {
 		ser, msg = []trace.M{}, "-"
 		defer func() {
@@ -268,20 +299,36 @@ func (d *drv) toNodeClaim(atoms []Atom) trace.M {
 		}
 		nct := provsched.NewNodeClaimTemplate(p)
 		nct.InstanceTypeOptions = d.catalog
+		if len(podAtoms) > 0 {
+			podReqs := scheduling.NewStrictPodRequirements(podWith(key, podAtoms))
+			if nct.Requirements.Compatible(podReqs, scheduling.AllowUndefinedWellKnownLabels) != nil {
+				gateOK = false
+				return
+			}
+			nct.Requirements.Add(podReqs.Values()...)
+		}
 		nc := nct.ToNodeClaim()
 		ser = serEntries(nc.Spec.Requirements, key)
 		label, hasLabel = nc.Labels[key]
 		return
 	}
 	ser, label, hasLabel, panicked, msg := run(false)
+	if !gateOK {
+		return out
+	}
+	out["ran"] = true
 	out["ser"], out["hasLabel"], out["label"], out["panic"] = ser, hasLabel, absVal(label), panicked
 	if panicked {
 		out["msg"] = msg
 	}
-	serS, _, _, panickedS, msgS := run(true)
-	out["serStatic"], out["panicStatic"] = serS, panickedS
-	if panickedS && !panicked {
-		out["msg"] = msgS
+	if len(podAtoms) == 0 { // static pools do not take pods through the scheduler's NodeClaim path
+		serS, _, _, panickedS, msgS := run(true)
+		out["serStatic"], out["panicStatic"] = serS, panickedS
+		if panickedS && !panicked {
+			out["msg"] = msgS
+		}
+	} else {
+		out["serStatic"], out["panicStatic"] = ser, panicked
 	}
 	return out
 }
@@ -313,15 +360,28 @@ func (d *drv) doCase(c Case) (ev trace.M) {
 	f := rs.Get(canon)
 	ev["has"], ev["mv"], ev["opr"] = d.has(f), mvOf(f), string(f.Operator())
 	// --- Intersection called directly, left-nested, right-nested, reversed Add chain, with itself
-	x := newReq(canon, c.Atoms[0])
+	probes := make([]*scheduling.Requirement, n)
+	for i := range c.Atoms {
+		probes[i] = newReq(canon, c.Atoms[i])
+	}
+	x := probes[0]
 	for i := 1; i < n; i++ {
-		x = x.Intersection(newReq(canon, c.Atoms[i]))
+		x = x.Intersection(probes[i])
 	}
 	ev["hasX"], ev["mvX"] = d.has(x), mvOf(x)
-	y := newReq(canon, c.Atoms[n-1])
+	y := probes[n-1]
 	for i := n - 2; i >= 0; i-- {
-		y = newReq(canon, c.Atoms[i]).Intersection(y)
+		y = probes[i].Intersection(y)
 	}
+	// Requirements.Add with shared operands: two Requirements built from the same *Requirement values
+	shared1, shared2 := scheduling.NewRequirements(), scheduling.NewRequirements()
+	for i := range probes {
+		shared1.Add(probes[i])
+	}
+	for i := n - 1; i >= 0; i-- {
+		shared2.Add(probes[i])
+	}
+	ev["hasShared"] = d.has(shared1.Get(canon))
 	ev["hasAssoc"], ev["mvAssoc"] = d.has(y), mvOf(y)
 	rev := make([]Atom, n)
 	for i := range c.Atoms {
@@ -371,7 +431,28 @@ func (d *drv) doCase(c Case) (ev trace.M) {
 	if anyPanic {
 		ev["msg"] = anyMsg
 	}
-	ev["nc"] = d.toNodeClaim(c.Atoms)
+	// ToNodeClaim for the pool alone (i = n) and for every pool-prefix / pod-suffix split
+	ncs := []trace.M{d.toNodeClaim(n, c.Atoms, nil)}
+	for i := 1; i < n; i++ {
+		ncs = append(ncs, d.toNodeClaim(i, c.Atoms[:i], c.Atoms[i:]))
+	}
+	ev["ncs"] = ncs
+	// the operands of Intersection / Add must not have been modified by any of the calls above
+	after := make([][]bool, n)
+	for i := range probes {
+		after[i] = d.has(probes[i])
+	}
+	ev["hasNewAfter"] = after
+	// the same conjunction read from a pod (required node affinity, first term)
+	hasPod := []bool{}
+	allPod := true
+	for _, a := range c.Atoms {
+		allPod = allPod && podValid(a)
+	}
+	if allPod {
+		hasPod = d.has(scheduling.NewStrictPodRequirements(podWith(canon, c.Atoms)).Get(canon))
+	}
+	ev["hasPod"] = hasPod
 	return ev
 }
 
